@@ -240,7 +240,8 @@ class _Gen:
                 return dict(same)
         kw: dict[str, Any] = {}
         names = ['callback', 'solver', 'throw', 'options']
-        k = rng.choice([1, 1, 2, 2, 3, 4])
+        # 0: `with Config():` -- a block that names nothing and inherits everything
+        k = rng.choice([1, 1, 2, 2, 3, 4, 1, 2, 3, 0])
         for name in rng.sample(names, k):
             if name == 'callback':
                 roll = rng.random()
